@@ -77,6 +77,8 @@ func genC20(c *Ctx) *Plan {
 	}
 	p.P["end"] = base + dur + int64(6*time.Second)
 	p.YieldOff = genYieldOff(r)
+	// a peer that accepts a stream and then stops reading (writes block until their deadline)
+	p.Net.StreamBlock = []float64{0, 0, 0.1, 0.3}[r.intn(4)]
 	// "shutdown2" parks inside the region protected by shutdownLock; with a truly
 	// overlapping second Shutdown that would leave a goroutine blocked on a sync.Mutex
 	hasS2 := false
